@@ -48,9 +48,9 @@ theorem DtOK.mono {fm fd ft fm' fd' ft' : Bool} {b : Bucket} (h : DtOK fm fd ft 
 
 /-! ## longest-match indices -/
 
-theorem findLongest_index (l : Text) : ∀ (t : List Text) (i : Nat) (best : Int) (longest : Nat),
+theorem findLongest_index (low : Char → Char) (l : Text) : ∀ (t : List Text) (i : Nat) (best : Int) (longest : Nat),
     (0 < i ∨ t.headD [] = []) →
-    (findLongest l t i best longest).1 = best ∨ 1 ≤ (findLongest l t i best longest).1 := by
+    (findLongest low l t i best longest).1 = best ∨ 1 ≤ (findLongest low l t i best longest).1 := by
   intro t
   induction t with
   | nil => intro i best longest _; left; rfl
@@ -71,14 +71,14 @@ theorem findLongest_index (l : Text) : ∀ (t : List Text) (i : Nat) (best : Int
         · right; exact e
       · exact ih (i + 1) best longest (Or.inl (Nat.succ_pos _))
 
-theorem parseLongest_index (l : Text) (t1 : List Text) (t2 : Option (List Text)) (i : Int) (r : Text)
+theorem parseLongest_index (low : Char → Char) (l : Text) (t1 : List Text) (t2 : Option (List Text)) (i : Int) (r : Text)
     (h1 : t1.headD [] = []) (h2 : ∀ t, t2 = some t → t.headD [] = [])
-    (h : parseLongest l t1 t2 = some (i, r)) : 1 ≤ i := by
-  have a := findLongest_index l t1 0 (-1) 0 (Or.inr h1)
+    (h : parseLongest low l t1 t2 = some (i, r)) : 1 ≤ i := by
+  have a := findLongest_index low l t1 0 (-1) 0 (Or.inr h1)
   cases t2 with
   | none =>
     simp only [parseLongest] at h
-    by_cases hne : (findLongest l t1 0 (-1) 0).1 ≠ -1
+    by_cases hne : (findLongest low l t1 0 (-1) 0).1 ≠ -1
     · rw [if_pos hne] at h
       injection h with h; injection h with h _
       rw [← h]
@@ -88,8 +88,8 @@ theorem parseLongest_index (l : Text) (t1 : List Text) (t2 : Option (List Text))
     · rw [if_neg hne] at h; cases h
   | some t =>
     simp only [parseLongest] at h
-    have b := findLongest_index l t 0 (findLongest l t1 0 (-1) 0).1 (findLongest l t1 0 (-1) 0).2 (Or.inr (h2 t rfl))
-    by_cases hne : (findLongest l t 0 (findLongest l t1 0 (-1) 0).1 (findLongest l t1 0 (-1) 0).2).1 ≠ -1
+    have b := findLongest_index low l t 0 (findLongest low l t1 0 (-1) 0).1 (findLongest low l t1 0 (-1) 0).2 (Or.inr (h2 t rfl))
+    by_cases hne : (findLongest low l t 0 (findLongest low l t1 0 (-1) 0).1 (findLongest low l t1 0 (-1) 0).2).1 ≠ -1
     · rw [if_pos hne] at h
       injection h with h; injection h with h _
       rw [← h]
@@ -171,14 +171,14 @@ theorem parseStep_dt_ok (cu : Culture) (hcu : cu.monthHeadsEmpty = true) (l : Te
           by simpa [Bucket.set, setsSlot] using a9⟩
   | monthText count =>
     simp only [parseStep] at h
-    cases hp : parseLongest l (monthTable cu count true)
+    cases hp : parseLongest (lowC cu) l (monthTable cu count true)
         (if monthTable cu count false = monthTable cu count true then none else some (monthTable cu count false)) with
     | none => rw [hp] at h; cases h
     | some q =>
       obtain ⟨i, r'⟩ := q
       rw [hp] at h; injection h with h; injection h with h; injection h with h _
       have hi : 1 ≤ i := by
-        apply parseLongest_index l _ _ i r' (monthTable_head cu hcu count true) _ hp
+        apply parseLongest_index (lowC cu) l _ _ i r' (monthTable_head cu hcu count true) _ hp
         intro t ht
         split at ht
         · cases ht
@@ -191,7 +191,7 @@ theorem parseStep_dt_ok (cu : Culture) (hcu : cu.monthHeadsEmpty = true) (l : Te
         by intro _; simp only [Bucket.set, if_true]; exact hi⟩
   | dayText count =>
     simp only [parseStep] at h
-    cases hp : parseLongest l (dayTable cu count) none with
+    cases hp : parseLongest (lowC cu) l (dayTable cu count) none with
     | none => rw [hp] at h; cases h
     | some q =>
       obtain ⟨i, r'⟩ := q
@@ -213,7 +213,7 @@ theorem parseStep_dt_ok (cu : Culture) (hcu : cu.monthHeadsEmpty = true) (l : Te
       simpa [setsSlot] using this
   | eraC cal =>
     simp only [parseStep] at h
-    cases hp : firstMatchCI l (eraNamesOf cu (eraIdOfCal cal)) with
+    cases hp : firstMatchCI (lowC cu) l (eraNamesOf cu (eraIdOfCal cal)) with
     | none => rw [hp] at h; cases h
     | some r' =>
       rw [hp] at h; injection h with h; injection h with h; injection h with h _
